@@ -16,3 +16,5 @@ def run(rep, tier, seed):
     T.standard_campaign(rep, "C01", tier, seed)
     from harness.props import real_sched
     real_sched.campaign(rep, "C01", tier, seed)
+    from harness.props import sim_tuner
+    sim_tuner.campaign_tunerloop(rep, "C01", tier, seed)
